@@ -2,7 +2,7 @@ From Coq Require Import QArith Qcanon Qcabs.
 From Raptor Require Import Base.Sums Sparse.Defs Extract.Inst.
 Require Import ExtrOcamlBasic.
 Extraction Language OCaml.
-Extraction "model.ml"
+Extraction "model_sparse.ml"
   Q2Qc Qcplus Qcmult Qcminus Qcopp Qcinv Qcdiv Qccompare Coq.QArith.Qcabs.Qcabs
   Qc_small Qc_ltb Qc_leb Qc_eqb
   coo_wfb csr_wfb csc_wfb
